@@ -479,6 +479,9 @@ func applyWith(e *slog.Entry, s SetOp) *slog.Entry {
 // treeName: the name of code k.  Names are plain data to the library: some end in a per cent sign or hold what
 // looks like a formatting verb (a logger named after a metric: "cpu%", "load %-5")
 func treeName(k int) string {
+	if k%5 == 4 { // a name that is not empty and holds only blanks (k of them: distinct codes stay distinct names)
+		return strings.Repeat(" ", k)
+	}
 	switch k % 3 {
 	case 1:
 		return fmt.Sprintf("n%d%%", k)
